@@ -549,6 +549,88 @@ pub fn txt_ctor_case(ctx: &mut Ctx, idx: u64, parse_back: bool) {
     }
 }
 
+/// Names that reach a packet through every public way of making one (validated, unchecked, from labels, `without`, cloned, owned,
+/// parsed from another message), as owner and inside RDATA, followed by another record: whatever a name caches about itself,
+/// RDLENGTH and the counts must describe what was written, for every entry point.
+pub fn derived_names_case(ctx: &mut Ctx, idx: u64) {
+    use simple_dns::rdata::{RData, A, MX, PTR, SOA, SRV};
+    use simple_dns::{Name, ResourceRecord, CLASS};
+    let mut r = ctx.rng("derived-names", idx);
+    let labels: Vec<String> = (0..r.usize(2, 6)).map(|i| { let n = r.usize(1, 12); format!("{}{}", (b'a' + (i as u8 % 26)) as char, "x".repeat(n - 1)) }).collect();
+    let full = labels.join(".");
+    let cut = r.usize(1, labels.len() - 1);
+    let suffix = labels[cut..].join(".");
+    let how = (idx % 8) as usize;
+    let hows = ["new", "new_unchecked", "new_with_labels", "from-label-slice", "without", "without+into_owned", "clone-of-parsed", "without-of-parsed"];
+    ctx.case(true, fnv(format!("derived{}{}{}", how, full, cut).as_bytes()));
+    ctx.count(&format!("derived_name_{}", hows[how]));
+    let case = || json!({"family": "derived-names", "idx": idx, "how": hows[how], "name": full, "suffix": suffix});
+    let built = monitor::guard(|| -> Result<(usize, Vec<(String, Vec<u8>)>), String> {
+        let base = Name::new(&full).map_err(|e| format!("{:?}", e))?;
+        let sfx = Name::new(&suffix).map_err(|e| format!("{:?}", e))?;
+        // a message to parse names out of
+        let mut src = Packet::new_reply(1);
+        src.answers.push(ResourceRecord::new(base.clone(), CLASS::IN, 1, RData::PTR(PTR(base.clone()))));
+        let src_bytes = src.build_bytes_vec_compressed().map_err(|e| format!("{:?}", e))?;
+        let parsed = Packet::parse(&src_bytes).map_err(|e| format!("{:?}", e))?;
+        let parsed_name = parsed.answers[0].name.clone();
+        let label_vec: Vec<simple_dns::Label> = base.get_labels().to_vec();
+        let n: Name = match how {
+            0 => base.clone(),
+            1 => Name::new_unchecked(&full),
+            2 => Name::new_with_labels(&label_vec),
+            3 => Name::from(&label_vec[..]),
+            4 => base.without(&sfx).ok_or("without gave None")?,
+            5 => base.without(&sfx).ok_or("without gave None")?.into_owned(),
+            6 => parsed_name.clone().into_owned(),
+            _ => parsed_name.without(&sfx).ok_or("without gave None")?.into_owned(),
+        };
+        let wire_len: usize = n.get_labels().iter().map(|l| l.len() + 1).sum::<usize>() + 1;
+        let mut pk = Packet::new_reply(idx as u16);
+        let owner = Name::new("o.example").map_err(|e| format!("{:?}", e))?;
+        match idx / 8 % 5 {
+            0 => pk.answers.push(ResourceRecord::new(owner.clone(), CLASS::IN, 3, RData::PTR(PTR(n.clone())))),
+            1 => pk.answers.push(ResourceRecord::new(owner.clone(), CLASS::IN, 3, RData::MX(MX { preference: 7, exchange: n.clone() }))),
+            2 => pk.answers.push(ResourceRecord::new(owner.clone(), CLASS::IN, 3, RData::SRV(SRV { priority: 1, weight: 2, port: 3, target: n.clone() }))),
+            3 => pk.answers.push(ResourceRecord::new(owner.clone(), CLASS::IN, 3, RData::SOA(SOA { mname: n.clone(), rname: n.clone(), serial: 1, refresh: 2, retry: 3, expire: 4, minimum: 5 }))),
+            _ => pk.answers.push(ResourceRecord::new(n.clone(), CLASS::IN, 3, RData::A(A { address: 1 }))),
+        }
+        pk.answers.push(ResourceRecord::new(owner, CLASS::IN, 9, RData::A(A { address: 0x0A0B0C0D })));
+        let mut outs = Vec::new();
+        outs.push(("build_bytes_vec".to_string(), pk.build_bytes_vec().map_err(|e| format!("build_bytes_vec: {:?}", e))?));
+        outs.push(("build_bytes_vec_compressed".to_string(), pk.build_bytes_vec_compressed().map_err(|e| format!("build_bytes_vec_compressed: {:?}", e))?));
+        let mut v = Vec::new();
+        pk.write_to(&mut v).map_err(|e| format!("write_to: {:?}", e))?;
+        outs.push(("write_to/vec".to_string(), v));
+        let mut c = Cursor::new(Vec::new());
+        pk.write_compressed_to(&mut c).map_err(|e| format!("write_compressed_to: {:?}", e))?;
+        outs.push(("write_compressed_to/cursor_vec".to_string(), c.into_inner()));
+        Ok((wire_len, outs))
+    });
+    let outs = match built {
+        Err(pn) => return ctx.panic_violation("building a packet with a derived name", &pn, case()),
+        Ok(Err(e)) => return ctx.violation("rdlength", &format!("build-error:derived-name:{}", hows[how]), format!("name made by {}: {}", hows[how], e), case()),
+        Ok(Ok((_, o))) => o,
+    };
+    for (what, out) in outs {
+        let problem = match decode_typed(&out) {
+            Err(e) => Some(format!("the independent decoder fails: {:?}", e)),
+            Ok(t) => {
+                let a = &t.env.secs[0];
+                if t.env.end != out.len() { Some(format!("{} bytes follow the last entry", out.len() - t.env.end)) }
+                else if a.len() != 2 || a[1].rtype != 1 || a[1].rdlen != 4 || out[a[1].rd_off..a[1].rd_off + 4] != [0x0A, 0x0B, 0x0C, 0x0D] || a[1].ttl != 9 { Some("the record after the one with the derived name is not the A record that was written".to_string()) }
+                else { None }
+            }
+        };
+        let lib_ok = monitor::guard(|| Packet::parse(&out).map(|p| p.answers.len()).ok()).ok().flatten() == Some(2);
+        match problem {
+            Some(pr) => ctx.violation("rdlength", &format!("framing:{}:derived-name:{}", what, hows[how]), format!("name made by {}, written by {}: {}", hows[how], what, pr), json!({"family": "derived-names", "idx": idx, "how": hows[how], "bytes": hex(&out[..out.len().min(500)])})),
+            None if !lib_ok => ctx.violation("rdlength", &format!("parse-own-output:{}:derived-name:{}", what, hows[how]), format!("name made by {}, written by {}: the library does not read its own output back as two records", hows[how], what), json!({"family": "derived-names", "idx": idx, "how": hows[how], "bytes": hex(&out[..out.len().min(500)])})),
+            None => ctx.count("derived_name_outputs_well_framed"),
+        }
+    }
+}
+
 pub fn run(ctx: &mut Ctx) {
     if let Some(tape) = ctx.tape_case() {
         // replay of a case found by the coverage-guided `model` target: the tape drives every generator decision
@@ -561,6 +643,14 @@ pub fn run(ctx: &mut Ctx) {
         for idx in 0..nt {
             if ctx.take("txt-ctor", idx) {
                 txt_ctor_case(ctx, idx, false);
+            }
+        }
+    }
+    if ctx.family_active("derived-names") {
+        let nt = if ctx.slow_tool { 40 } else { tier.pick(4_000u64, 200_000u64) };
+        for idx in 0..nt {
+            if ctx.take("derived-names", idx) {
+                derived_names_case(ctx, idx);
             }
         }
     }
